@@ -77,6 +77,13 @@ Proof.
 Qed.
 Print Assumptions c08_order_independent.
 
+(* the selection depends on r only through which ranges contain it, so it is constant on every stretch of separations that
+   contains no range start: this is the local constancy that C07's multi-range derivative theorem (c07_multirange) assumes *)
+Theorem c08_locally_constant : forall rs r r', NoDup (map rkey rs) -> r <= r' ->
+  (forall d, In d rs -> r_start d < r \/ r' < r_start d) -> mr_select rs r = mr_select rs r'.
+Proof. intros rs r r' Hn Hle H. apply select_locally_constant; [exact Hn|apply no_start_between; assumption]. Qed.
+Print Assumptions c08_locally_constant.
+
 (* The statement without the distinct-key hypothesis is FALSE of the faithful model (and of the code):
    two ranges with identical start and marker -- recorded as known finding C08-dupkey. *)
 Definition c08_order_independent_full : Prop :=
